@@ -2422,8 +2422,11 @@ get_literal(int token, YYLTYPE loc, const string &str, const YYSTYPE &value) {
   if (decl == nullptr) {
     // Special case to handle C code, which allows a macro to directly follow
     // a string, like "str"SUFFIX.  In this case, it becomes a separate token.
+    // As everywhere else, a function-like macro is only invoked when it is
+    // followed by an open parenthesis.
     Manifests::const_iterator mi = _manifests.find(suffix);
-    if (mi != _manifests.end() && !should_ignore_manifest((*mi).second)) {
+    if (mi != _manifests.end() && !should_ignore_manifest((*mi).second) &&
+        (!(*mi).second->_has_parameters || c == '(')) {
       CPPManifest *manifest = (*mi).second;
       _saved_tokens.push_back(expand_manifest(manifest, loc));
       return CPPToken(token, loc, str, value);
